@@ -211,6 +211,8 @@ def unique_init(fn, d, use=None):
     nd = fn.nodes[vd]
     if nd.get('static'):
         return None
+    if 'init' in nd and nd.get('t', '').rstrip().endswith('&'):
+        return nd['init']          # a reference is bound once; writes go through it, not to it
     ws = local_writes(fn, d)
     if 'init' in nd and not ws:
         return nd['init']
@@ -267,6 +269,15 @@ def implied(fn, expr, val, out=None, depth=0):
                 out.add(('has', fn.strip(init), val))
             else:
                 implied(fn, init, val, out, depth + 1)
+        elif val and nd.get('t') in ('bool', 'const bool'):
+            # monotone flag: `bool ok = a && b; … ok = false; … if (ok)` — true only if the
+            # initialiser was true (every later write assigns the constant false)
+            vd = var_decl(fn, nd['d'])
+            if vd is not None and 'init' in fn.nodes[vd] and not fn.nodes[vd].get('static'):
+                ws = local_writes(fn, nd['d'])
+                if ws and all(fn.nodes[w]['k'] == 'BinaryOperator' and fn.nodes[w].get('op') == '=' and
+                              fn.nodes[fn.strip(fn.kids(w)[1])].get('cv') == '0' for w in ws):
+                    implied(fn, fn.nodes[vd]['init'], True, out, depth + 1)
     elif k == 'CXXMemberCallExpr' and any(nd.get('callee', '').endswith(s) for s in OPT_TEST) \
             and 'optional<' in nd.get('callee', ''):
         r = fn.receiver(e)
@@ -735,9 +746,11 @@ def loop_has_early_exit(fn, loop):
     return False
 
 
-def must_precede(fn, targets, is_required):
+def must_precede(fn, targets, is_required, bypass=None):
     """Every path from the entry to each target node passes an element accepted by is_required
-    (node id) before it.  Returns [(target, witness path)] for targets reachable without."""
+    (node id) before it — or an edge carrying a fact accepted by `bypass` (a stated condition under
+    which the requirement does not apply).  Returns [(target, witness path)] for targets reachable
+    without."""
     cfg = Cfg.of(fn)
     req_pos = {}
     for bid, b in cfg.blocks.items():
@@ -762,6 +775,8 @@ def must_precede(fn, targets, is_required):
             if b in req_pos and b != tb:
                 continue
             for s_, label, _f in cfg.out_edges(b):
+                if bypass is not None and any(bypass(f) for f in _f):
+                    continue
                 if s_ not in prev:
                     prev[s_] = (b, label)
                     if s_ == tb:
